@@ -374,16 +374,17 @@ func (gi *gitlabImporter) ensurePerson(repo *cache.RepoCache, id int) (*cache.Id
 		return nil, err
 	}
 
+	// a display name is free text as well: what an identity refuses has to be cleaned up
 	i, err = repo.Identities().NewRaw(
-		user.Name,
-		user.PublicEmail,
-		user.Username,
+		text.CleanupOneLine(user.Name),
+		text.CleanupOneLine(user.PublicEmail),
+		text.CleanupOneLine(user.Username),
 		user.AvatarURL,
 		nil,
 		map[string]string{
 			// because Gitlab
 			metaKeyGitlabId:    strconv.Itoa(id),
-			metaKeyGitlabLogin: user.Username,
+			metaKeyGitlabLogin: text.CleanupOneLine(user.Username),
 		},
 	)
 	if err != nil {
